@@ -24,4 +24,39 @@ TABLE = {
         "text": "TLC proves for all small definitions and all payloads up to length 5/6 over {0,1,2} that the specified v2 decoder is insensitive to trailing zeros removed/appended and to bytes past the extended size and that v1 accepts exactly the base length. Every real Write/Read call on boundary assignments and arbitrary payloads of every message type is compared with the spec result; panics and writes to the caller's buffer or its spare capacity are observed with a 0xAA-guarded window.",
         "note": "Trusted: MavMessage.tla; the harness's reflection-based projection of message values to little-endian limbs; sampling (not exhaustive) over field values and payload contents.",
     },
+    "C02": {
+        "engine": "stream",
+        "design_ref": "DESIGN.md section 4, C02",
+        "technique": "bit-serial CRC-16/MCRF4XX in TLA+ (table = serial on all 2^24 pairs by TLC); real x25 sums validated by TLC; TLC-computed valid frames damaged and replayed through the real dialect reader, results validated by the PReader monitor",
+        "text": "TLC shows the table-driven step equals the bit-serial catalogue definition on all 2^24 (register, byte) pairs. The real x25 package is observed on all 3-byte strings behind 8 (quick) / all 256 (thorough = all 2^24 pairs) first bytes and on split strings. Valid frames whose CRC_EXTRA and checksum are computed by the specification are fed to a real dialect reader untouched and with every single-bit flip, substitutions and multi-byte damage; the monitor recomputes the CRC, so a frame is delivered iff its checksum is the spec value (collisions are judged correctly).",
+        "note": "Trusted: X25.tla parameters (check value asserted), MavMessage!CrcExtra (C03), TLC. Gate conformance samples ~40 message types in quick, all in thorough.",
+    },
+    "C05": {
+        "engine": "stream",
+        "design_ref": "DESIGN.md section 4, C05",
+        "technique": "TLA+ prefix parser + PReader stream monitor (cursor, progress, frame-equals-consumed-bytes, completeness, chunking independence); runs of the real reader over exhaustive small-alphabet streams and structured streams under chunk schedules and injected transport errors validated by TLC",
+        "text": "Every run of the real frame.Reader (until the transport error) over all strings over {FE,FD,00,01,02} up to length 5/7 and over structured streams (valid, truncated, corrupted frames, junk) under chunkings cut at every region boundary and with an error at every offset is recorded with the byte cursor of every call and validated by the monitor: result kinds, progress, at most n+1 calls, each frame equals exactly the bytes consumed, valid frame at the cursor is delivered, clean streams yield every frame, results equal across chunkings.",
+        "note": "Trusted: MavFrame!ParseAt; cursor computed as bytes drawn minus bufio.Buffered(). The monitor does not prescribe how far the reader skips after a bad frame.",
+    },
+    "C06": {
+        "engine": "stream",
+        "design_ref": "DESIGN.md section 4, C06",
+        "technique": "SHA-256 and the MAVLink signature layout in pure TLA+; TLC-signed frames tampered and replayed through the real keyed reader; frames emitted by real keyed writers verified by TLC",
+        "text": "Signed frames are computed entirely by the specification (SHA-256 in TLA+, asserted on FIPS vectors) for 3 keys x 5 payload lengths and read by a real reader with InKey: untouched frames must be delivered; every single-bit alteration, cleared flag, unsigned, v1, wrong key must be refused (monitor recomputes the signature for anything delivered). Frames emitted by keyed streamwriter.Writer and frame.Writer are verified by the same formula (flag, link id, timestamp, signature).",
+        "note": "Trusted: SHA256.tla, MavFrame!SigInput as transcription of the signing document. Node links with OutKey are verified in the node engine traces.",
+    },
+    "C07": {
+        "engine": "stream",
+        "design_ref": "DESIGN.md section 4, C07",
+        "technique": "TLA+ window monitor with exact 48-bit arithmetic; implementation-shaped model (64-bit wrap-around arithmetic) checked against it by TLC over all reachable (register, newest) pairs; all histories of a boundary alphabet replayed into the real reader and validated",
+        "text": "MC_Window explores every history of the 12-symbol boundary alphabet (state = register pair, so all lengths) and shows the coded arithmetic agrees with the property's rule (and finds the wrap-around of the pinned commit in the 'old' variant). All alphabet histories of depth 3 (quick) / 4 (thorough) plus random deeper ones are fed to a fresh real keyed reader (frames signed by TLC) and the accept/refuse sequence is judged by the monitor; outgoing timestamps of keyed writers are checked monotone and within the harness clock.",
+        "note": "Trusted: Wide.tla arithmetic; alphabet instead of all 2^48 values (boundaries of the window and of the 48-bit range).",
+    },
+    "C09": {
+        "engine": "stream",
+        "design_ref": "DESIGN.md section 4, C09",
+        "technique": "PWriter TLA+ monitor (identity, version, flags, checksum, gapless per-link sequence) + IWriter counter model checked by TLC; long mixed write histories on the real writers validated by TLC",
+        "text": "MC_Writer checks the counter placement of the code against the monitor under all histories of accepted/refused/failed writes (and shows the gap of the pinned commit in the 'old' variant). Real histories of 700 writes (two wrap-arounds) with refusals at seeded and at every position, all initialisation configurations, on streamwriter.Writer and frame.Writer.WriteMessage (and node links via the node engine) are parsed frame by frame and judged: ids, component default, compat flags, spec checksum and payload, v1 without extensions, refusal of ids above 255, sequence numbers.",
+        "note": "Trusted: MavMessage/MavFrame/X25 specs. Deprecated frame.Writer is not required to validate its configuration (only the emission clauses are applied to it).",
+    },
 }
